@@ -82,7 +82,7 @@ def parse_summary(path):
 
 def run(ctx):
     ctx.level = "proof"
-    status = vlib.proof_status(PID, extra_targets=["C12/Extract.v"])
+    status = vlib.proof_status(PID, extra_targets=["C12/Extract.v", "C12/VmCheck.v"])
     ctx.proof_gate(status)
     drv = build_driver()
     exe, blog = build_harness(ctx)
@@ -157,6 +157,7 @@ def run(ctx):
             "extraction (ExtrOcamlBasic, ExtrOcamlString; no Extract Constant/Inductive of our own) + OCaml 4.13.1 + props/C12/driver/c12_driver.ml (s-expression reader/printer, zarith for decimal I/O)",
             "Go harness props/C12/harness (generator, projection through public getters, protobuf tree dump) and the add-only accessors props/C12/overlay/verif_c12_hooks.go (isDefCANIDBuilder, fixedSignals)",
             "the protobuf library's wire/JSON/text codecs are not modelled: the model starts at the message tree the codecs deliver",
+            "thorough tier: a sample of the cases is re-checked by Eval vm_compute inside Coq (coq/C12/VmCheck.v, props/C12/vmcheck.py): for that sample extraction, OCaml and the driver are not trusted",
             "model coq/C12/{Proto,NetModel,Save,Load}.v is a hand-written restatement of saver.go/loader.go; tied by the tree-level and projection-level comparison above",
         ],
     })
@@ -164,6 +165,12 @@ def run(ctx):
         "in_domain: Go ints within the wire ranges (uint32 / int32), start value not negative zero",
         "orders produced by Go map iteration or sort ties are compared as multisets (determinism is C15)",
     ]
+    if ctx.tier == "thorough" or os.environ.get("VERIF_VMCHECK"):
+        import importlib.util
+        spec = importlib.util.spec_from_file_location("c12_vmcheck", os.path.join(HERE, "vmcheck.py"))
+        vm = importlib.util.module_from_spec(spec)
+        spec.loader.exec_module(vm)
+        vm.cross_check(ctx, PID, out, want=24, need_n=True)
     if ctx.tier == "thorough":
         ok, chk = vlib.coqchk(PID)
         ctx.coverage["coqchk"] = "ok" if ok else "FAILED"
